@@ -1723,9 +1723,11 @@ func Exec(run *Run, ar *arena.Arena, va *arena.Vars, g *Globals, sites *SiteTabl
 		x.schedIDs = []int{ts.id}
 		secp.VerifSetYieldHook(ss.Hook)
 		secp.VerifSetSpawnHook(ss.Spawn)
+		secp.VerifSetPauseHook(ss.Pause)
 		ss.Run([]func(){func() { x.runTask(ts, ops) }})
 		secp.VerifSetYieldHook(nil)
 		secp.VerifSetSpawnHook(nil)
+		secp.VerifSetPauseHook(nil)
 		x.Sch = nil
 		soloSteps += ss.Step
 		if ss.Cut > 0 {
@@ -1992,9 +1994,11 @@ func Exec(run *Run, ar *arena.Arena, va *arena.Vars, g *Globals, sites *SiteTabl
 	}
 	secp.VerifSetYieldHook(s.Hook)
 	secp.VerifSetSpawnHook(s.Spawn)
+	secp.VerifSetPauseHook(s.Pause)
 	s.Run(fns)
 	secp.VerifSetYieldHook(nil)
 	secp.VerifSetSpawnHook(nil)
+	secp.VerifSetPauseHook(nil)
 	x.St.Steps = s.Step
 	x.St.Switches = uint64(len(s.Switches))
 	x.St.InOpSw = s.InOpSw
